@@ -81,6 +81,35 @@ def Reader.read (r : Reader) (len : Nat) : List UInt8 × Option ErrKind × Reade
     let m := a.size len r.rest.length
     (r.rest.take m, a.err false m (r.rest.drop m).isEmpty, { r with rest := r.rest.drop m, script := [] })
 
+/-! ### the same function for the compiled driver
+
+`Reader.read` asks for `r.rest.length` on every call, which makes a one-byte reader over a source of several
+10^5 bytes quadratic in the native driver.  `Reader.readFast` takes the bytes first and measures what it took;
+the two are equal (kernel-checked below), and `@[csimp]` makes the compiler use the second wherever the first is
+called.  Nothing in the proofs refers to `readFast`. -/
+
+def Reader.readFast (r : Reader) (len : Nat) : List UInt8 × Option ErrKind × Reader :=
+  match r.script with
+  | a :: s =>
+    let data := r.rest.take (if a.half then (len + 1) / 2 else min a.cap len)
+    let rest := r.rest.drop data.length
+    (data, a.err true data.length rest.isEmpty, { r with rest := rest, script := s })
+  | [] =>
+    let a : Answer := { cap := len, flag := if r.tailEof then .eofWithData else .none }
+    let data := r.rest.take (min len len)
+    let rest := r.rest.drop data.length
+    (data, a.err false data.length rest.isEmpty, { r with rest := rest, script := [] })
+
+theorem take_min_length (l : List UInt8) (k : Nat) : l.take (min k l.length) = l.take k := by
+  rw [List.take_eq_take_iff]; omega
+
+@[csimp] theorem Reader.read_eq_readFast : @Reader.read = @Reader.readFast := by
+  funext r len
+  unfold Reader.read Reader.readFast
+  cases h : r.script with
+  | nil => simp only [Answer.size, List.length_take, take_min_length, Bool.false_eq_true, if_false]
+  | cons a s => simp only [Answer.size, List.length_take, take_min_length]
+
 /-! ## `Input` -/
 
 structure Input where
